@@ -696,4 +696,77 @@ theorem C20_features_collide_with_lt :
     simp at this
 
 example : (∀ f ∈ ([[0x62], [0x61]] : List Bytes), LtFree f) := by simp [LtFree]
+/-! The identity section: `cat/type/lang/name<` parses uniquely when category, type and language
+hold no `/` and the name no `<` (the name may contain `/`); the harness word universe contains
+`"a/b"` and `"/"`. -/
+
+theorem split_at_sep (c : UInt8) (a b r r' : Bytes) (ha : c ∉ a) (hb : c ∉ b)
+    (h : a ++ c :: r = b ++ c :: r') : a = b ∧ r = r' := by
+  induction a generalizing b with
+  | nil =>
+    cases b with
+    | nil => simpa using h
+    | cons y ys =>
+      simp at h
+      exact absurd h.1.symm (by intro e; apply hb; simp [e])
+  | cons x xs ih =>
+    cases b with
+    | nil =>
+      simp at h
+      exact absurd h.1 (by intro e; apply ha; simp [e])
+    | cons y ys =>
+      simp at h
+      have := ih ys (by intro m; apply ha; simp [m]) (by intro m; apply hb; simp [m]) h.2
+      exact ⟨by rw [h.1, this.1], this.2⟩
+
+/-- an identity whose parts can be told apart in `cat/type/lang/name<`: no `<` anywhere and no
+`/` in category, type and language (the name may contain `/`) -/
+structure IdClean (i : Identity) : Prop where
+  cat_slash : (0x2f : UInt8) ∉ i.cat
+  typ_slash : (0x2f : UInt8) ∉ i.typ
+  lang_slash : (0x2f : UInt8) ∉ i.lang
+  name_lt : (0x3c : UInt8) ∉ i.name
+
+theorem renderId_parse (x y : Identity) (r r' : Bytes) (hx : IdClean x) (hy : IdClean y)
+    (h : renderId x ++ r = renderId y ++ r') : x = y ∧ r = r' := by
+  simp only [renderId, slash, lt, List.append_assoc, List.singleton_append] at h
+  obtain ⟨e1, h⟩ := split_at_sep _ _ _ _ _ hx.cat_slash hy.cat_slash h
+  obtain ⟨e2, h⟩ := split_at_sep _ _ _ _ _ hx.typ_slash hy.typ_slash h
+  obtain ⟨e3, h⟩ := split_at_sep _ _ _ _ _ hx.lang_slash hy.lang_slash h
+  obtain ⟨e4, h⟩ := split_at_sep _ _ _ _ _ hx.name_lt hy.name_lt h
+  refine ⟨?_, h⟩
+  cases x; cases y; simp_all
+
+theorem renderId_flatMap_inj (l l' : List Identity) (hl : ∀ i ∈ l, IdClean i) (hl' : ∀ i ∈ l', IdClean i)
+    (h : l.flatMap renderId = l'.flatMap renderId) : l = l' := by
+  induction l generalizing l' with
+  | nil =>
+    cases l' with
+    | nil => rfl
+    | cons y ys => simp [renderId, lt] at h
+  | cons x xs ih =>
+    cases l' with
+    | nil => simp [renderId, lt] at h
+    | cons y ys =>
+      simp only [List.flatMap_cons] at h
+      have hs := renderId_parse x y _ _ (hl x (by simp)) (hl' y (by simp)) h
+      rw [hs.1, ih ys (fun f m => hl f (by simp [m])) (fun f m => hl' f (by simp [m])) hs.2]
+
+/-- **Collision freedom of the identity section**: two identity lists of clean identities
+written as the same bytes are the same multiset. -/
+theorem C20_identities_injective (a b : List Identity) (ha : ∀ i ∈ a, IdClean i) (hb : ∀ i ∈ b, IdClean i)
+    (h : verImpl ⟨a, [], []⟩ = verImpl ⟨b, [], []⟩) : a.Perm b := by
+  simp only [verImpl, sortStrings, List.mergeSort_nil, List.flatMap_nil, List.append_nil] at h
+  have p₁ : (a.mergeSort idLe).Perm a := List.mergeSort_perm _ _
+  have p₂ : (b.mergeSort idLe).Perm b := List.mergeSort_perm _ _
+  have e := renderId_flatMap_inj _ _ (fun f m => ha f (p₁.mem_iff.mp m)) (fun f m => hb f (p₂.mem_iff.mp m)) h
+  exact p₁.symm.trans (e ▸ p₂)
+
+/-- the hypothesis is needed: a `/` in the category moves the boundary -/
+theorem C20_identities_collide_with_slash :
+    verImpl ⟨[⟨[0x61, 0x2f, 0x62], [0x63], [0x64], [0x65]⟩], [], []⟩ =
+      verImpl ⟨[⟨[0x61], [0x62, 0x2f, 0x63], [0x64], [0x65]⟩], [], []⟩ := by
+  simp [verImpl, sortStrings, renderId, slash, lt]
+
+example : IdClean ⟨[0x61], [0x62], [], [0x63, 0x2f, 0x64]⟩ := ⟨by simp, by simp, by simp, by simp⟩
 end XmppModel.Props.C20
